@@ -183,10 +183,12 @@ def def_op_desc(draw, masks=True):
     d = {"o": k, "v": draw(fl(0.005, 0.08))}
     if masks and draw(st.integers(0, 3)) == 0:
         m = [[draw(st.booleans()) for _ in range(3)] for _ in range(3)]
+        sym = draw(st.booleans())  # any 3x3 boolean mask is accepted; symmetric ones are the common case
         for i in range(3):
             m[i][i] = True
             for j in range(i):
-                m[i][j] = m[j][i]
+                if sym:
+                    m[i][j] = m[j][i]
         d["mask"] = m
     return d
 
